@@ -93,3 +93,5 @@ func ChildMain(args []string) int {
 	}
 	return 2
 }
+
+func monCatch(f func()) any { return mon.Catch(f) }
